@@ -119,8 +119,11 @@ const c03PC = 0x0200
 
 // c03Run: for x in [x0,x1) (as 32-bit range), y in ys (or y=x for doubling),
 // f in fs.
-func c03Run(c *Ctx, mem *fastMem, e *enc16, base z80.States, x0, x1 uint32, ys []uint16, yAll bool, fs []uint8) int64 {
+// c03Tail: the bytes that follow the instruction under test in memory (nil: zeros).  The
+// instruction's effect does not depend on them; an idiom-recognising fast path might.
+func c03Run(c *Ctx, mem *fastMem, e *enc16, base z80.States, x0, x1 uint32, ys []uint16, yAll bool, fs []uint8, tail ...uint8) int64 {
 	copy(mem.d[c03PC:], e.Bytes)
+	copy(mem.d[c03PC+uint16(len(e.Bytes)):], tail)
 	pre := base
 	pre.PC = c03PC
 	cpu := &z80.CPU{Memory: mem}
@@ -243,7 +246,7 @@ func runC03(c *Ctx) {
 		bases[i] = RandStates(r0)
 	}
 	var mu sync.Mutex
-	var evals, fullPairs, latticeSteps, completeSingles, allF int64
+	var evals, fullPairs, latticeSteps, completeSingles, allF, idiomSteps int64
 	type job struct {
 		ei     int
 		x0, x1 uint32
@@ -251,6 +254,7 @@ func runC03(c *Ctx) {
 		fs     []uint8
 		ys     []uint16
 		class  int
+		tail   []uint8
 	}
 	var jobs []job
 	for ei := range encs {
@@ -259,26 +263,26 @@ func runC03(c *Ctx) {
 		case e.Src < 0 || e.Src == e.Dst:
 			// INC/DEC and doubling forms: all 65536 values x all 256 F, complete
 			for ch := uint32(0); ch < 16; ch++ {
-				jobs = append(jobs, job{ei, ch * 4096, (ch + 1) * 4096, false, all, nil, 2})
+				jobs = append(jobs, job{ei, ch * 4096, (ch + 1) * 4096, false, all, nil, 2, nil})
 			}
 		default:
 			if thorough && e.Rep {
 				// all 2^32 pairs x 4 F patterns
 				for ch := uint32(0); ch < 256; ch++ {
-					jobs = append(jobs, job{ei, ch * 256, (ch + 1) * 256, true, c03F4, nil, 0})
+					jobs = append(jobs, job{ei, ch * 256, (ch + 1) * 256, true, c03F4, nil, 0, nil})
 				}
 			} else if thorough {
 				// every other ss encoding: all 2^32 pairs x F in {00, FF} (carry-in and
 				// every preserved bit at 0 and at 1), plus the lattice with 4 patterns
 				for ch := uint32(0); ch < 256; ch++ {
-					jobs = append(jobs, job{ei, ch * 256, (ch + 1) * 256, true, []uint8{0x00, 0xff}, nil, 0})
+					jobs = append(jobs, job{ei, ch * 256, (ch + 1) * 256, true, []uint8{0x00, 0xff}, nil, 0, nil})
 				}
 				for ch := uint32(0); ch < 16; ch++ {
-					jobs = append(jobs, job{ei, ch * 4096, (ch + 1) * 4096, false, c03F4, lattice, 1})
+					jobs = append(jobs, job{ei, ch * 4096, (ch + 1) * 4096, false, c03F4, lattice, 1, nil})
 				}
 			} else {
 				for ch := uint32(0); ch < 16; ch++ {
-					jobs = append(jobs, job{ei, ch * 4096, (ch + 1) * 4096, false, c03F4, lattice, 1})
+					jobs = append(jobs, job{ei, ch * 4096, (ch + 1) * 4096, false, c03F4, lattice, 1, nil})
 				}
 			}
 			// all 256 F on a reduced pair set (2^20 pairs thorough, 2^16 quick)
@@ -287,14 +291,30 @@ func runC03(c *Ctx) {
 				ny = 4
 			}
 			for ch := uint32(0); ch < 4; ch++ {
-				jobs = append(jobs, job{ei, ch * 16384, (ch + 1) * 16384, false, all, lattice[:ny], 3})
+				jobs = append(jobs, job{ei, ch * 16384, (ch + 1) * 16384, false, all, lattice[:ny], 3, nil})
+			}
+		}
+	}
+	// INC/DEC BC/DE/HL once more inside the code they usually live in: the 16-bit count-down
+	// / count-up loop  <INC|DEC> rr ; LD A,r ; OR r' ; JR NZ,loop  (both byte orders), all
+	// 65536 values: one Step is still exactly rr+-1, flags untouched
+	for ei := range encs {
+		e := &encs[ei]
+		if e.Src >= 0 || len(e.Bytes) != 1 || e.Bytes[0]&0xc7 != 0x03 || e.Bytes[0]>>4 > 2 {
+			continue
+		}
+		p := e.Bytes[0] >> 4 // 0 BC, 1 DE, 2 HL
+		hi, lo := uint8(0x78+2*p), uint8(0x79+2*p)
+		for _, t := range [][]uint8{{hi, 0xb0 | (lo & 7), 0x20, 0xfb}, {lo, 0xb0 | (hi & 7), 0x20, 0xfb}, {hi, 0xb0 | (lo & 7), 0xc2, uint8(c03PC & 0xff), uint8(c03PC >> 8)}} {
+			for ch := uint32(0); ch < 4; ch++ {
+				jobs = append(jobs, job{ei, ch * 16384, (ch + 1) * 16384, false, []uint8{0x00, 0xff, 0x44}, nil, 4, t})
 			}
 		}
 	}
 	Parallel(len(jobs), func(ji int) {
 		j := jobs[ji]
 		mem := &fastMem{}
-		n := c03Run(c, mem, &encs[j.ei], bases[j.ei], j.x0, j.x1, j.ys, j.yAll, j.fs)
+		n := c03Run(c, mem, &encs[j.ei], bases[j.ei], j.x0, j.x1, j.ys, j.yAll, j.fs, j.tail...)
 		mu.Lock()
 		evals += n
 		switch j.class {
@@ -306,10 +326,13 @@ func runC03(c *Ctx) {
 			completeSingles += n
 		case 3:
 			allF += n
+		case 4:
+			idiomSteps += n
 		}
 		mu.Unlock()
 	})
 	c.R.Set("second_operand_lattice_head", fmt.Sprint(lattice[:12]))
+	c.R.Set("steps_inside_the_16bit_loop_idiom", idiomSteps)
 	c.R.Set("evaluations", evals)
 	c.R.Set("distinct_nontrivial", evals)
 	c.R.Set("encodings", int64(len(encs)))
@@ -324,5 +347,5 @@ func runC03(c *Ctx) {
 	} else {
 		c.R.Set("exhaustive_parts", "doubling forms and INC/DEC ss/IX/IY: all 65536 values x all 256 F")
 	}
-	c.R.Set("rule", "every ss encoding of ADD HL/IX/IY, ADC HL, SBC HL: all 65536 first operands x a lattice of second operands (nibble/sign edges, single bits, PRNG; 512 quick / 2048 thorough) x F in {00,FF,01,FE}, plus all 256 F on a reduced pair set; thorough adds all 2^32 pairs x 4 F for one encoding of each operation and all 2^32 pairs x 2 F for every other ss encoding; doubling forms and INC/DEC complete (65536 x 256 F). Oracle: 17-bit sum, H from the low 12 bits, overflow by signed range check, Z on the whole word; the whole States value is compared so nothing else may change; every 1024th Step continues on a by-value copy of the CPU struct while the abandoned struct is scribbled over. Each (encoding, x, y, F) tuple is enumerated once: distinct = evaluations by construction, all non-trivial")
+	c.R.Set("rule", "every ss encoding of ADD HL/IX/IY, ADC HL, SBC HL: all 65536 first operands x a lattice of second operands (nibble/sign edges, single bits, PRNG; 512 quick / 2048 thorough) x F in {00,FF,01,FE}, plus all 256 F on a reduced pair set; thorough adds all 2^32 pairs x 4 F for one encoding of each operation and all 2^32 pairs x 2 F for every other ss encoding; doubling forms and INC/DEC complete (65536 x 256 F); INC/DEC BC/DE/HL again with the 16-bit loop idiom (LD A,r; OR r'; JR NZ / JP NZ back) as the following bytes, all 65536 values. Oracle: 17-bit sum, H from the low 12 bits, overflow by signed range check, Z on the whole word; the whole States value is compared so nothing else may change; every 1024th Step continues on a by-value copy of the CPU struct while the abandoned struct is scribbled over. Each (encoding, x, y, F) tuple is enumerated once: distinct = evaluations by construction, all non-trivial")
 }
